@@ -184,7 +184,19 @@ func (u *Universe) funcName(f *types.Func) string {
 	return pkg + "." + f.Name()
 }
 
+func (u *Universe) registerMapTypes(p *packages.Package) {
+	for _, tv := range p.TypesInfo.Types {
+		if tv.Type == nil {
+			continue
+		}
+		if m, ok := tv.Type.Underlying().(*types.Map); ok {
+			u.mapVars(m)
+		}
+	}
+}
+
 func (u *Universe) indexPackage(short string, p *packages.Package) {
+	u.registerMapTypes(p)
 	for _, file := range p.Syntax {
 		fname := u.Fset.Position(file.Pos()).Filename
 		if strings.HasSuffix(fname, "_test.go") {
